@@ -24,9 +24,14 @@ RingReach(m, S, seen) == IF S = {} THEN seen
                          ELSE LET nxt == { r \in RingIds(m) : \E q \in S : RingAtoms(m, r) \cap RingAtoms(m, q) # {} } \ (seen \cup S)
                               IN RingReach(m, nxt, seen \cup S)
 RingSystem(m, r) == RingReach(m, {r}, {})
+\* "cage-like": a ring system of three or more rings in which some atom lies in three or more rings of the basis (prismane,
+\* cubane, adamantane, peri-fused arenes such as pyrene / coronene) and two of its atoms are possibly equivalent.
+\* Flat cata-fused systems (triphenylene, biphenylene, steroids) are inside the claimed domain.
 SymmetricCage(m, cls) == \E r \in RingIds(m) :
                             LET sys == RingSystem(m, r) atoms == UNION { RingAtoms(m, q) : q \in sys }
-                            IN Cardinality(sys) >= 3 /\ \E x, y \in atoms : x # y /\ cls[x] = cls[y]
+                            IN /\ Cardinality(sys) >= 3
+                               /\ \E x \in atoms : Cardinality({ q \in sys : x \in RingAtoms(m, q) }) >= 3
+                               /\ \E x, y \in atoms : x # y /\ cls[x] = cls[y]
 \* C01's claimed domain: no stereo mark on a possibly pseudo-asymmetric centre / double bond end, no possibly symmetric cage
 StereoAmbiguous(m, cls) ==
   \/ \E k \in Nodes(m) : m.atoms[k].p # 2 /\ AmbiguousCentre(m, cls, k)
